@@ -211,6 +211,11 @@ def generate(model: Model):
         for fn in (x for x in tree.body if isinstance(x, ast.FunctionDef) and x.name == "_calculate_divisions"):
             for b_ in (x for x in ast.walk(fn) if isinstance(x, ast.BoolOp) and isinstance(x.op, ast.Or) and "nulls.any()" in ast.unparse(x)):
                 yield "mutant", "revert:presorted-ignores-missing-keys", "R10h", mod.rel, _splice(mod.source, b_, "mins.isna().any() or maxes.isna().any()")
+        for cdef in (x for x in tree.body if isinstance(x, ast.ClassDef) and x.name == "SortValues"):
+            for a_ in (x for x in cdef.body if isinstance(x, ast.Assign) and ast.unparse(x.targets[0]) == "_defaults" and isinstance(x.value, ast.Dict)):
+                for k_, v_ in zip(a_.value.keys, a_.value.values):
+                    if isinstance(k_, ast.Constant) and k_.value == "options":
+                        yield "mutant", "revert:required-parameter-not-supplied:SortValues.options", "R01l", mod.rel, _splice(mod.source, k_, "'options_'")
         for cdef in (x for x in tree.body if isinstance(x, ast.ClassDef) and x.name == "_SetIndexPost"):
             for fn in (x for x in cdef.body if isinstance(x, ast.FunctionDef) and x.name == "_get_culled_divisions"):
                 for lc in (x for x in ast.walk(fn) if isinstance(x, ast.ListComp) and "for part in partitions" in ast.unparse(x)):
